@@ -20,6 +20,26 @@ CHECKS = {
           "outside (DESIGN.md C03)."),
     design_ref="DESIGN.md §6 C03",
     note=TRUST_KANI + " E3 additionally trusts the hand-written MIR->SMT translator (self-validated on every run against the repository's own unit-test vectors) and z3 4.8.12 / cvc5 1.0 agreeing."),
+ "C01": dict(
+    engine="kani-real",
+    technique="bounded model checking (Kani/CBMC SAT) of the real field-splitting, quote-removal, phrase and switch-condition kernels on symbolic character sequences against a POSIX reference splitter; compositional (classification verified per IFS, state machine verified against its specification via kani::stub)",
+    text=("Kernels of word expansion decided for every input within the bound: IFS classification (9 IFS values x 16 candidate "
+          "characters x all origin/quoting attributes), the splitting state machine and split_into on every sequence of <= 6 "
+          "characters over {a, space, -} x all attributes against an XCU 2.6.5 reference splitter, quote removal on <= 5 arbitrary "
+          "characters, the phrase algebra behind $@/$* on 81 shape pairs, and the switch condition table (XCU 2.6.2). The initial "
+          "expansion itself (parameter forms, $@/$* selection, nounset, read) is outside: it reaches async closures / regex "
+          "construction on which Kani 0.68 aborts."),
+    design_ref="DESIGN.md §0 and §6 C01",
+    note=TRUST_KANI + " Compositional stub: Ifs::classify_attr replaced by its specification in the state-machine obligations."),
+ "C02": dict(
+    engine="kani-real",
+    technique="bounded model checking (Kani/CBMC SAT) of the real loop-level kernel (Stack::loop_count, break/continue semantics) over symbolic frame stacks",
+    text=("For every stack of <= 5 frames (each of the 7 frame kinds symbolic) and every requested count, break/continue address "
+          "exactly the enclosing loops of the current execution context, capped at the request, and fail iff there is none. Which "
+          "commands run, their order and $? are decided inside Command::execute (subshells spawned with async closures: Kani ICE) and "
+          "are outside the claim."),
+    design_ref="DESIGN.md §0 and §6 C02",
+    note=TRUST_KANI),
  "C04": dict(
     engine="z3-relang (+ kani-real)", category="translation_validation",
     technique="translation validation by SMT: z3 regular-language equivalence (all string lengths) between the regex the real pattern compiler emits and the POSIX reading, over a bounded-exhaustive pattern family; counterexample strings replayed through the real matcher",
@@ -34,12 +54,50 @@ CHECKS = {
           "matching per that HIR; z3 5.1 sequence theory; the reference POSIX reading (e2/relang.py, POSIX locale). The "
           "is_match glue is hand-modelled and validated natively on solver-produced witnesses on every run. Patterns POSIX "
           "leaves unspecified are skipped and counted.")),
+ "C07": dict(
+    engine="kani-real",
+    technique="bounded model checking (Kani/CBMC SAT) of the real quoting function on one symbolic character over all of Unicode, against a reference word reader that calls the real lexer's blank/delimiter predicates",
+    text=("For every Unicode scalar value c (one symbolic char) and for the empty string: whenever the shell would not read the "
+          "unquoted character back literally (per the real lexer's blank/delimiter predicates), yash_quote decides to quote it. The "
+          "printed form (quote style, escapes), strings of two or more characters, reading back through the real lexer, and all "
+          "state listings are outside (measured: out of memory / no answer in 25 min / need command execution)."),
+    design_ref="DESIGN.md §0 and §6 C07",
+    note=TRUST_KANI),
+ "C10": dict(
+    engine="kani-real",
+    technique="bounded model checking (Kani/CBMC SAT) of the real errexit decision kernel (Env::errexit_is_applicable, apply_errexit) over symbolic frame stacks, option and exit status",
+    text=("For every stack of <= 4 frames (each frame kind symbolic), errexit on/off and every exit status: errexit applies iff the "
+          "option is on and no condition frame is anywhere on the stack, and then exits iff the status is non-zero. Where condition "
+          "frames are pushed, special vs regular built-ins and the EXIT trap count are command execution (async closures) - outside."),
+    design_ref="DESIGN.md §0 and §6 C10",
+    note=TRUST_KANI + " RandomState::new stubbed with fixed keys."),
+ "C11": dict(
+    engine="kani-real",
+    technique="bounded model checking (Kani/CBMC SAT): inductive steps of the real trap-state operations from an arbitrary per-signal record satisfying the installed-disposition invariant, on a stub signal system; table-level steps on TrapSet",
+    text=("One operation (set_action with/without override, set_internal_disposition, enter_subshell with each option, ignore, "
+          "catch/take) from ANY trap record satisfying 'installed disposition = max(internal, trap action)' re-establishes it, calls "
+          "the system exactly once iff the effective disposition changes, refuses signals ignored on entry, never traps KILL/STOP; "
+          "subshell entry resets command traps, keeps ignores (and their untrappable marker), keeps SIGCHLD's handler; each caught "
+          "signal is handed out exactly once. The step covers histories of any length. Running the action at the next command "
+          "boundary is command execution - outside."),
+    design_ref="DESIGN.md §0 and §6 C11",
+    note=TRUST_KANI + " Transforms T1b (BTreeMap -> 4-slot association list), T7/T7b (Location / command text in trap records -> unit stand-ins)."),
+ "C12": dict(
+    engine="kani-real",
+    technique="bounded model checking (Kani/CBMC SAT): inductive steps of every real JobList operation from an arbitrary 3-slot table satisfying the five-clause invariant; extract_if by induction over the iterator with remove replaced by its verified contract",
+    text=("One operation (insert incl. pid reuse, remove, update_status, set_current_job, one extract_if step, bookkeeping, job-ID "
+          "resolution) from ANY 3-slot job table satisfying the invariant (current/previous job rules, pid index, stable indices) "
+          "re-establishes it and has the documented effect; the empty table satisfies it. One inductive step covers histories of "
+          "every length over tables of <= 3 jobs. %string lookup and the jobs/fg/bg built-ins are outside."),
+    design_ref="DESIGN.md §0 and §6 C12",
+    note=TRUST_KANI + " Transform T1 (HashMap -> association list). slab is the real crate."),
 }
 
 NOT_APPLICABLE = {
  "C05": "glob.rs interleaves directory reads with regex construction/matching; Kani 0.68 aborts (ICE in regex_automata codegen) on any harness from which regex::Regex construction is reachable; component language is covered under C04",
  "C06": "real parser: CBMC exhausts 24 GB on the concrete input 'a b' (async recursive descent, dyn Future); symbolic text out of reach; a grammar model would not be the real code",
  "C08": "subshell entry is built on async closures (Kani 0.68 ICE) and whole-Env cloning; the trap-reset clause is decided under C11",
+ "C09": "built and abandoned: one redirection through the real perform() on a 6-descriptor stub system (T2 expansion models, narrowed bound, recursion bound on Location drop glue, futures never dropped) was still in symbolic execution at 8-12 GB after 31 min and ran out of memory; the saved-descriptor leak on failed redirections is visible by reading only",
  "C13": "concurrency/schedules: Kani does not model concurrent code; wait_for_subshell over a symbolic-schedule kernel stub gave no answer in 40 min; child start sites are async closures (Kani ICE)",
  "C14": "pipe buffer step (FileBody::Fifo poll_write) exceeded 12 GB per arm even with scaled constants (WakerSet hash sets); transfer loops and pipelines are concurrency",
  "C15": "executor Task/Waker: Rc<RefCell<VecDeque<Rc<Task>>>> + dyn Future + RawWaker vtable fan-out; three formulations (history, step lemma, Task::wake alone) all exceeded 10 GB or 25 min",
@@ -50,9 +108,15 @@ NOT_APPLICABLE = {
  "C20": "parse_arguments on Fields with Locations: 11-12 GB even with concrete two-field vectors; per-built-in effects need built-ins to run (command execution, async closures)",
 }
 
+# properties whose quick check has run green on the unchanged tree in this sandbox
+ENABLED = ["C03", "C04", "C10", "C11"]
+
+
 def main():
     checks = []
     for pid in sorted(CHECKS):
+        if pid not in ENABLED:
+            continue
         c = CHECKS[pid]
         checks.append({
             "property_id": pid,
@@ -65,10 +129,10 @@ def main():
             "level_note": c["note"],
             "technique": c["technique"],
         })
-    na = [{"property_id": k, "reason": v} for k, v in sorted(NOT_APPLICABLE.items()) if k not in CHECKS]
+    na = [{"property_id": k, "reason": v} for k, v in sorted(NOT_APPLICABLE.items()) if k not in ENABLED]
     for i in range(1, 21):
         k = "C%02d" % i
-        if k not in CHECKS and k not in NOT_APPLICABLE:
+        if (k not in CHECKS or k not in ENABLED) and k not in NOT_APPLICABLE:
             na.append({"property_id": k, "reason": "check designed (DESIGN.md) but not yet built and measured in this tree; not claimed until it runs green"})
     na.sort(key=lambda d: d["property_id"])
     m = {
@@ -82,7 +146,7 @@ def main():
             "add_only": True,
         },
         "engines": [
-            {"name": "kani-real", "path": "/verif/vlib/core.py", "serves_properties": sorted(CHECKS),
+            {"name": "kani-real", "path": "/verif/vlib/core.py", "serves_properties": [p for p in sorted(CHECKS) if p in ENABLED],
              "kind_free_text": "Kani 0.68 / CBMC 6.11 bounded model checking of the real compiled code; harnesses in /verif/harness"},
             {"name": "z3-relang", "path": "/verif/e2", "serves_properties": ["C04"],
              "kind_free_text": "z3 regular-language equivalence between the regex emitted by the real yash-fnmatch translator and a POSIX reference construction"},
